@@ -612,7 +612,7 @@ func (rep *reporter) runLru(scratch string, thorough bool, seed int64) *lruStats
 	// ---- L3: long random histories ----------------------------------------------
 	nh, hlen := 24, 400
 	if thorough {
-		nh, hlen = 120, 1500
+		nh, hlen = 80, 1000
 	}
 	for i := 0; i < nh; i++ {
 		capacity := []int{1, 2, 3, 2, 3, 4, 1, 8}[i%8]
@@ -649,7 +649,7 @@ func (rep *reporter) runLru(scratch string, thorough bool, seed int64) *lruStats
 	}
 	st.Random = nh
 	if st.Hits == 0 || st.Misses == 0 || st.Evicts == 0 {
-		if len(rep.drifts) == 0 {
+		if len(rep.drifts) == 0 && c.Violations() == 0 {
 			vlib.Infra("vacuous random LRU histories: %d hits, %d misses, %d visible evictions", st.Hits, st.Misses, st.Evicts)
 		}
 	}
